@@ -740,6 +740,10 @@ class FuelHandler:
             )
             return
 
+        if a1 is a2:
+            runLog.warning("Cannot swap {} with itself. Skipping swap".format(a1))
+            return
+
         runLog.extra("Swapping {} with {}.".format(a1, a2))
         # add assemblies into the moved location
         for a in [a1, a2]:
